@@ -151,15 +151,15 @@ def check_framing(rep, fm, cli):
             raise AnalysisError("directory mode %s is not reached from main()" % fn)
         for c0 in calls:
             end = min([x.seq for x in exits if x.seq > c0.seq] or [len(ev)])
-            loops = [L for L in dls if L.func == q and c0.seq < L.events[0] < end]
+            loops = [L for L in dls if q in L.stack and c0.seq < L.events[0] < end]
             if not loops:
                 rep.fail(rule, q, fn, "no loop over the directory entries found in %s" % fn)
                 continue
             first = min(L.events[0] for L in loops)
             last = max(L.events[1] for L in loops)
-            pre = [e for e in ev if c0.seq < e.seq < first and e.func == q and not e.loops]
+            pre = [e for e in ev if c0.seq < e.seq < first and q in e.stack and not e.loops]
             entry = set(conj(fm.norm(pre[-1].guard if pre else c0.guard)))
-            finals = [e for e in ev if is_stdout_print(e) and e.func == q and not e.loops and last <= e.seq < end]
+            finals = [e for e in ev if is_stdout_print(e) and q in e.stack and not e.loops and last <= e.seq < end]
             ok = False
             for P in finals:
                 extra = [c for c in conj(fm.norm(P.guard)) if c not in entry]
@@ -170,7 +170,7 @@ def check_framing(rep, fm, cli):
                       "state / an exception / an early exit): %s" % (fn, [repr([c for c in conj(fm.norm(P.guard)) if c not in entry])[:160] for P in finals] or "no final print"))
             for L in loops:
                 for x in ev[L.events[0]:L.events[1]]:
-                    if (x.kind == "exit") or (x.kind == "return" and x.func == q and L in x.loops):
+                    if (x.kind == "exit") or (x.kind == "return" and x.func == L.func and L in x.loops):
                         if fm.norm(x.guard) != FALSE:
                             rep.fail(rule, q, x.node, "%s inside the per-file loop of %s skips the closing output / changes the exit status" % (x.kind, fn), node=x.node)
     check_all_separator(rep, fm, rule)
@@ -180,8 +180,8 @@ def check_all_separator(rep, fm, rule):
     ev = fm.events
     # -a: separator depends only on "a document has already been printed"
     q = PT + "extractAllPELsData"
-    seps = [e for e in ev if is_stdout_print(e) and e.func == q and e.loops and e.data[0] and e.data[0][0] == Const(",")]
-    docs = [e for e in ev if is_stdout_print(e) and e.func == q and e.loops and e.data[0] and decode_results(e.data[0][0])]
+    seps = [e for e in ev if is_stdout_print(e) and q in e.stack and e.loops and e.data[0] and e.data[0][0] == Const(",")]
+    docs = [e for e in ev if is_stdout_print(e) and q in e.stack and e.loops and e.data[0] and decode_results(e.data[0][0])]
     ok = len(seps) == 1 and len(docs) == 1 and seps[0].seq < docs[0].seq
     if ok:
         L = docs[0].loops[-1]
